@@ -18,6 +18,8 @@ import (
 	"sigs.k8s.io/controller-runtime/pkg/reconcile"
 
 	networkv1beta1 "github.com/AliyunContainerService/terway/pkg/apis/network.alibabacloud.com/v1beta1"
+	"github.com/AliyunContainerService/terway/pkg/eni"
+	daemonTypes "github.com/AliyunContainerService/terway/types/daemon"
 	terwayTypes "github.com/AliyunContainerService/terway/types"
 	"github.com/AliyunContainerService/terway/types/controlplane"
 )
@@ -544,6 +546,44 @@ func (w *ewWorld) envPod(k string) {
 	}
 }
 
+// envDaemon asks the daemon side (pkg/eni Remote.Allocate) whether it would hand the record's interfaces to pod
+// instance u of name k right now (one immediate look; the retry loop is cut by the context).
+func (w *ewWorld) envDaemon(k string) {
+	w.mu.Lock()
+	n := w.nextUID[k]
+	w.mu.Unlock()
+	if n == 0 {
+		return
+	}
+	u := n - 1
+	if n > 1 && w.r.Chance(30) {
+		u = w.r.Intn(n - 1)
+	}
+	ctx, cancel := context.WithTimeout(context.Background(), 10*time.Millisecond)
+	defer cancel()
+	ch, _ := eni.NewRemote(w.cl, nil).Allocate(ctx, &daemonTypes.CNI{PodName: k, PodNamespace: ewNS, PodUID: ewUID(k, u)}, &eni.RemoteIPRequest{})
+	ok := false
+	if ch != nil {
+		select {
+		case resp := <-ch:
+			ok = resp != nil && resp.Err == nil && len(resp.NetworkConfigs) > 0
+		case <-time.After(40 * time.Millisecond):
+			// not ready: the retry loop was cut by the context and nothing is sent
+		}
+	}
+	w.mu.Lock()
+	defer w.mu.Unlock()
+	if ok {
+		rec := w.rawRec(k)
+		if rec == nil || rec.Status.Phase != networkv1beta1.ENIPhaseBind || !rec.DeletionTimestamp.IsZero() || rec.Annotations[terwayTypes.PodUID] != ewUID(k, u) {
+			w.c.Violate("C10/daemon/accepted-record-not-bound-to-that-instance",
+				fmt.Sprintf("the daemon took the interfaces of record %s for pod instance %s although the record is not Bind for it", k, ewUID(k, u)), w.tail()...)
+		}
+	}
+	w.c.Count("daemon:accept=" + b01(ok))
+	w.emit(k, fmt.Sprintf("pe.dAccept %s %d %s", k, u, b01(ok)), "")
+}
+
 func (w *ewWorld) envTick() {
 	w.mu.Lock()
 	defer w.mu.Unlock()
@@ -699,8 +739,10 @@ func (w *ewWorld) stepOnce() {
 				w.runToEnd(a)
 			}
 		}
-	case x < 88:
+	case x < 84:
 		w.envPod(Pick(r, w.names))
+	case x < 88:
+		w.envDaemon(Pick(r, w.names))
 	case x < 95:
 		w.envTick()
 	default:
